@@ -150,7 +150,7 @@ Lemma Inv_step : forall fx A (s : cst) (o : op) s' outs oc,
 Proof.
   intros fx A s o s' outs oc HI Hst.
   assert (HI' : Inv (A ++ asks o) s) by (eapply Inv_mono; [exact HI|apply incl_appl, incl_refl]).
-  destruct o as [t|t|tid|tid nid sendok|tid|tid ver|otm oro|tm|rid nf|ro]; cbn [step asks] in *.
+  destruct o as [t|t|tid|tid nid sendok|tid|tid ver|otm oro|tm pick|rid nf|ro]; cbn [step asks] in *.
   - (* LRegister *) inversion Hst; subst. apply Inv_register; [exact HI'|]. apply in_or_app. right. left. reflexivity.
   - (* LCreate *)
     destruct (t_ro t); inversion Hst; subst; [|exact HI'].
@@ -184,7 +184,7 @@ Proof.
       [inversion Hst; subst; exact HI'|].
     assert (Hin : In (tm_tid tm) A).
     { eapply state_in; [exact HI|]. intros Habs. rewrite Habs in Eaw. discriminate. }
-    destruct (inst_roster s (c_insts s) (tm_rid tm) None) as [[ro|]| |]; try (inversion Hst; subst; exact HI').
+    destruct (inst_roster s (c_insts s) (tm_rid tm) pick) as [[ro|]| |]; try (inversion Hst; subst; exact HI').
     all: try (destruct (handle_send_tree gadd fx s (Some tm) (Some ro)) as [s1 oc1] eqn:Eh; inversion Hst; subst;
               apply handle_send_tree_cases in Eh as [->|(tm' & ro' & t & _ & _ & _ & _ & -> & Hid & Hne & _)]; [exact HI'|];
               apply Inv_register; [exact HI'|]; rewrite Hid; eapply state_in; eauto).
@@ -270,7 +270,7 @@ Lemma keyed_step : forall fx (s : cst) (o : op) s' outs oc,
   keyed s -> step gadd fx s o = (s', outs, oc) -> keyed s'.
 Proof.
   intros fx s o s' outs oc Hk Hst.
-  destruct o as [t|t|tid|tid nid sendok|tid|tid ver|otm oro|tm|rid nf|ro]; cbn [step] in *.
+  destruct o as [t|t|tid|tid nid sendok|tid|tid ver|otm oro|tm pick|rid nf|ro]; cbn [step] in *.
   - inversion Hst; subst. apply keyed_register, Hk.
   - destruct (t_ro t); inversion Hst; subst; [|exact Hk]. apply keyed_register.
     eapply keyed_store_eq; [|exact Hk]. reflexivity.
@@ -290,7 +290,7 @@ Proof.
     destruct (negb match tree_state s (tm_tid tm) with
                    | Absent => false | Requested => true | Present => negb (fix_n1 fx) end);
       [inversion Hst; subst; exact Hk|].
-    destruct (inst_roster s (c_insts s) (tm_rid tm) None) as [[ro|]| |]; try (inversion Hst; subst; exact Hk).
+    destruct (inst_roster s (c_insts s) (tm_rid tm) pick) as [[ro|]| |]; try (inversion Hst; subst; exact Hk).
     all: try (destruct (handle_send_tree gadd fx s (Some tm) (Some ro)) as [s1 oc1] eqn:Eh; inversion Hst; subst;
               apply handle_send_tree_cases in Eh as [->|(tm' & ro' & t & _ & _ & _ & _ & -> & _)]; [exact Hk|apply keyed_register, Hk]).
     all: destruct (c_plock s); inversion Hst; subst; try exact Hk.
@@ -344,7 +344,7 @@ Proof.
     apply handle_send_tree_cases in Eh as [->|(tm & ro & t & _ & _ & _ & _ & -> & Hid & _ & Hreq)]; [congruence|].
     rewrite register_store in Hne. destruct (t_id t =? tid) eqn:E; [|congruence].
     apply Nat.eqb_eq in E. subst tid. rewrite Hid. auto. }
-  destruct o as [t|t|tid0|tid0 nid sendok|tid0|tid0 ver|otm oro|tm|rid nf|ro]; cbn in Hp; try discriminate; cbn [step] in Hst.
+  destruct o as [t|t|tid0|tid0 nid sendok|tid0|tid0 ver|otm oro|tm pick|rid nf|ro]; cbn in Hp; try discriminate; cbn [step] in Hst.
   - destruct (get_tree s tid0); [destruct (ver =? 0)|]; inversion Hst; subst; congruence.
   - destruct (handle_send_tree gadd fx s otm oro) as [s1 oc1] eqn:Eh. inversion Hst; subst.
     pose proof (Hhs _ _ _ _ Eh Hch). auto.
@@ -352,7 +352,7 @@ Proof.
     destruct (negb match tree_state s (tm_tid tm) with
                    | Absent => false | Requested => true | Present => negb (fix_n1 fx) end);
       [inversion Hst; subst; congruence|].
-    destruct (inst_roster s (c_insts s) (tm_rid tm) None) as [[ro|]| |]; try (inversion Hst; subst; congruence).
+    destruct (inst_roster s (c_insts s) (tm_rid tm) pick) as [[ro|]| |]; try (inversion Hst; subst; congruence).
     + destruct (handle_send_tree gadd fx s (Some tm) (Some ro)) as [s1 oc1] eqn:Eh; inversion Hst; subst.
       pose proof (Hhs _ _ _ _ Eh Hch). auto.
     + destruct (c_plock s); inversion Hst; subst; cbn in Hch; congruence.
@@ -409,6 +409,19 @@ Proof.
   rewrite Hf. destruct (make_tree_fixed_total G gadd (fix_n2 fx) m ro) as [H _]. rewrite (H Hm). reflexivity.
 Qed.
 
+(* a response without description, with a nil tree id, or without roster is dropped *)
+Theorem incomplete_response_ignored : forall fx (s : cst) otm oro,
+  (otm = None \/ oro = None \/ exists m, otm = Some m /\ tm_tid m = 0) ->
+  step gadd fx s (PResponseTree otm oro) = (s, [], Fine).
+Proof.
+  intros fx s otm oro H. cbn [step]. unfold handle_send_tree.
+  destruct otm as [m|]; [|reflexivity].
+  destruct (tm_tid m =? 0) eqn:E0; [reflexivity|].
+  destruct oro as [ro|]; [|reflexivity].
+  exfalso. destruct H as [H|[H|(m' & H & Hz)]]; try discriminate.
+  inversion H; subst m'. rewrite Hz in E0. discriminate.
+Qed.
+
 Theorem response_never_crashes : forall fx (s : cst) otm oro s' outs oc,
   fix_f06 fx = true -> step gadd fx s (PResponseTree otm oro) = (s', outs, oc) -> oc = Fine.
 Proof.
@@ -457,18 +470,18 @@ Proof.
 Qed.
 
 (* deprecated form: description first (version-0 answer), the roster on request *)
-Theorem learnt_equals_sender_deprecated : forall fx (asker : cst) (t : stree) ro,
+Theorem learnt_equals_sender_deprecated : forall fx (asker : cst) (t : stree) ro pick,
   wf_tree t ro -> t_id t <> 0 -> r_id ro <> 0 ->
   tree_state asker (t_id t) = Requested ->
   c_plock asker = false ->
-  inst_roster asker (c_insts asker) (r_id ro) None = Ok None ->
+  inst_roster asker (c_insts asker) (r_id ro) pick = Ok None ->
   lookup (c_pend asker) (r_id ro) = None ->
   exists a1 a2,
-    step gadd fx asker (PTreeMarshal (to_marshal t)) = (a1, [ORequestRoster (r_id ro)], Fine) /\
+    step gadd fx asker (PTreeMarshal (to_marshal t) pick) = (a1, [ORequestRoster (r_id ro)], Fine) /\
     step gadd fx a1 (PRoster ro) = (a2, [], Fine) /\
     get_tree a2 (t_id t) = Some t.
 Proof.
-  intros fx asker t ro (Hro & Hnd & Hall & Hagg) Hnz Hrz Hreq Hpl Hir Hpe.
+  intros fx asker t ro pick (Hro & Hnd & Hall & Hagg) Hnz Hrz Hreq Hpl Hir Hpe.
   assert (Etid : tm_tid (to_marshal t) = t_id t) by (unfold to_marshal; rewrite Hro; reflexivity).
   assert (Erid : tm_rid (to_marshal t) = r_id ro) by (unfold to_marshal; rewrite Hro; reflexivity).
   eexists. eexists. split; [|split].
@@ -519,7 +532,7 @@ Proof. vm_compute. reflexivity. Qed.
    message arriving after the tree was released stores the tree again although nobody
    asked again *)
 Definition stale_ops : list (op nat) :=
-  [LMsg 9 555 true; PTreeMarshal (to_marshal w_t); PRoster w_ro; Expire 9; PRoster w_ro].
+  [LMsg 9 555 true; PTreeMarshal (to_marshal w_t) 0; PRoster w_ro; Expire 9; PRoster w_ro].
 
 Theorem stale_refuted :
   exists s1 s2, run Nat.add pinned init (firstn 4 stale_ops) = (s1, Fine) /\
@@ -536,7 +549,7 @@ Proof. eexists. split; vm_compute; reflexivity. Qed.
    tree then arrives by a full response; after that tree's release, the late roster message
    stores it again *)
 Definition late_roster_ops : list (op nat) :=
-  [LMsg 9 555 true; PTreeMarshal (to_marshal w_t); PResponseTree (Some (to_marshal w_t)) (Some w_ro);
+  [LMsg 9 555 true; PTreeMarshal (to_marshal w_t) 0; PResponseTree (Some (to_marshal w_t)) (Some w_ro);
    Expire 9; PRoster w_ro].
 
 Theorem late_roster_residual :
